@@ -186,6 +186,51 @@ def late_and_mixed_registrations():
     return out
 
 
+def builtin_collisions():
+    """a custom type whose id / OID collides with a built-in choice is a duplicate registration: ValueError, nothing changed"""
+    import dataclasses
+
+    out = []
+    for role in (sansldap.LDAPClient, sansldap.LDAPServer):
+        for fid in list(range(0, 10)):
+            cls = dataclasses.make_dataclass(f"F{fid}", [("value", str, dataclasses.field(default=""))], bases=(sansldap.LDAPFilter,), frozen=True,
+                                             namespace={"filter_id": fid})
+            s = role()
+            before = len(getattr(getattr(s, "_packing_options", None), "filter", sansldap.FilterOptions()).choices)
+            try:
+                s.register_filter(cls)
+                out.append({"key": None, "what": f"registering a custom filter type with the id of a built-in filter choice ({fid}) was not rejected as a duplicate"})
+            except ValueError:
+                pass
+            except BaseException as e:  # noqa: BLE001
+                out.append({"key": None, "what": f"registering a custom filter type with a built-in id ({fid}) raised {type(e).__name__}, not ValueError"})
+            del before
+        for aid in (0, 3):
+            cls = dataclasses.make_dataclass(f"A{aid}", [("value", str, dataclasses.field(default=""))], bases=(sansldap.AuthenticationCredential,), frozen=True,
+                                             namespace={"auth_id": aid})
+            s = role()
+            try:
+                s.register_auth_credential(cls)
+                out.append({"key": None, "what": f"registering a custom credential type with the id of a built-in choice ({aid}) was not rejected as a duplicate"})
+            except ValueError:
+                pass
+            except BaseException as e:  # noqa: BLE001
+                out.append({"key": None, "what": f"registering a custom credential type with a built-in id ({aid}) raised {type(e).__name__}, not ValueError"})
+        for oid in (sansldap.PagedResultControl.control_type if isinstance(getattr(sansldap.PagedResultControl, "control_type", None), str) else "1.2.840.113556.1.4.319",
+                    "1.2.840.113556.1.4.417", "1.2.840.113556.1.4.2065"):
+            cls = dataclasses.make_dataclass("Cx", [], bases=(sansldap.LDAPControl,), frozen=True)
+            try:
+                cls = type("Cx", (sansldap.LDAPControl,), {"control_type": oid})
+                s = role()
+                s.register_control(cls)
+                out.append({"key": None, "what": f"registering a custom control type with the OID of a built-in control ({oid}) was not rejected as a duplicate"})
+            except ValueError:
+                pass
+            except BaseException as e:  # noqa: BLE001
+                out.append({"key": None, "what": f"registering a custom control with a built-in OID ({oid}) raised {type(e).__name__}, not ValueError"})
+    return out
+
+
 def different_registrations():
     """two live sessions holding DIFFERENT custom types of the same kind, traffic interleaved in every order"""
     out = []
@@ -357,7 +402,7 @@ def shared_inputs(ctx, hist):
 
 def run(ctx):
     rng = ctx.rng
-    violations = registration_semantics() + different_registrations() + late_and_mixed_registrations()
+    violations = registration_semantics() + different_registrations() + late_and_mixed_registrations() + builtin_collisions()
     hist = collections.Counter()
     violations += shared_results(ctx, hist)
     violations += shared_inputs(ctx, hist)
